@@ -278,7 +278,7 @@ pub fn check(s: &'static dyn Proto, c: &Case, st: &mut Stats, _k: &KnownFindings
 }
 
 pub const BUDGET: Budget = Budget {
-    quick: (48, 24, 10),
+    quick: (200, 90, 36),
     thorough: (300, 100, 40),
     shrink: 60,
 };
